@@ -17,12 +17,21 @@ pub fn redir_text(r: &Value, bodies: &mut String, delim_no: &mut usize) -> Strin
     let op = r["op"].as_str().unwrap();
     let path = r["path"].as_str().unwrap_or("");
     let n = r["n"].as_i64().unwrap_or(-1);
+    // "cs": the pathname is produced by a command substitution (the shell's
+    // own pipe traffic happens while the target's saved copy exists)
+    let word = |p: &str| {
+        if r["cs"].as_bool().unwrap_or(false) {
+            format!("$(echo {})", probe::real_path(p))
+        } else {
+            probe::real_path(p).to_string()
+        }
+    };
     match op {
-        "in" => format!("{t}<{}", probe::real_path(path)),
-        "out" => format!("{t}>{}", probe::real_path(path)),
-        "clob" => format!("{t}>|{}", probe::real_path(path)),
-        "app" => format!("{t}>>{}", probe::real_path(path)),
-        "rw" => format!("{t}<>{}", probe::real_path(path)),
+        "in" => format!("{t}<{}", word(path)),
+        "out" => format!("{t}>{}", word(path)),
+        "clob" => format!("{t}>|{}", word(path)),
+        "app" => format!("{t}>>{}", word(path)),
+        "rw" => format!("{t}<>{}", word(path)),
         "dupin" => format!("{t}<&{n}"),
         "dupout" => format!("{t}>&{n}"),
         "closein" => format!("{t}<&-"),
@@ -111,6 +120,16 @@ pub fn base_files() -> Vec<FileSpec> {
 
 /// Runs `script` (`-c`, or as the script file /tmp/s when `as_file`).
 pub fn run_script(script: &str, as_file: bool, tracked: &'static [&'static str]) -> ShellResult {
+    run_script_with(script, as_file, tracked, &[])
+}
+
+/// Like `run_script`, with additional regular files (path, content).
+pub fn run_script_with(
+    script: &str,
+    as_file: bool,
+    tracked: &'static [&'static str],
+    extra: &[(String, String)],
+) -> ShellResult {
     let mut cfg = if as_file {
         ShellCfg::with_argv(vec!["yash".into(), "/tmp/s".into()])
     } else {
@@ -123,6 +142,9 @@ pub fn run_script(script: &str, as_file: bool, tracked: &'static [&'static str])
         content: if as_file { script.as_bytes().to_vec() } else { vec![] },
         mode: 0o644,
     });
+    for (path, content) in extra {
+        cfg.files.push(FileSpec::Regular { path: path.clone(), content: content.as_bytes().to_vec(), mode: 0o644 });
+    }
     cfg.cwd = Some("/tmp".into());
     cfg.step_limit = 200_000;
     cfg.setup = Some(Box::new(move |env, state| {
